@@ -41,6 +41,9 @@ BOUNDS = {"quick": {"max_nodes": 3, "max_dev": 2, "plus": "all 4-node DAGs with 
                        "typelevel": "n<=3: 8 edge kinds, >= 1 type-level edge, <= 2 deviations; "
                                     "n=4: kinds {none, req, treq, tg, topt}, >= 1 type-level edge, no deviation"}}
 CAP_S = {"quick": 300, "thorough": 5400}
+FRESH_PROCESS_PER_UNIT = True     # 58-819 units: a forked child per unit costs nothing and keeps module-level state of the engine
+                                  # (memo tables a change may add) from growing across units - see mc/runner.py
+
 
 EDGE = ["none", "req", "g1", "g2", "opt"]
 ALTS = ["none", "skip", "error", "disabled", "seed", "seednone", "seedzero"]
